@@ -94,7 +94,8 @@ def cases(draw, tier):
             "check_len": draw(st.sampled_from([0, 0, 3, 6])), "indel": draw(st.booleans()) and kind != "many_unique_sites",
             "heap": 10 ** 4 if kind == "many_unique_sites" else draw(st.sampled_from(
                 [1, 10, 1000, 1000, 10 ** 4, "inf" if kind in ("first_bad", "length_k", "last_symbol") else 10])),
-            "layout": draw(st.sampled_from([None, None, None, "F", "strided", "offset", "int32"]))}
+            "layout": draw(st.sampled_from([None, None, None, "F", "strided", "offset", "int32"])),
+            "np_start": draw(st.sampled_from([False, False, True]))}
 
 
 def evaluate(case):
@@ -111,7 +112,7 @@ def evaluate(case):
     budget_lines = line_budget(n, k, heap, sites)
     result, lookups, lines = repairing.run_repair(rows, k, start, text, check=check, has_indel=case["indel"],
                                                   heap_size=heap, line_budget=budget_lines,
-                                                  layout=case.get("layout"))
+                                                  layout=case.get("layout"), np_start=bool(case.get("np_start")))
     labels = ["kind:" + case["kind"], "walk" if walk else "not_walk", "k=%d" % k,
               "len>=150" if n >= 150 else "len<150"]
     what = "repair_dna(%r, k=%d, start=%d, check=%r, has_indel=%s, heap_size=%g)" \
